@@ -433,7 +433,13 @@ func jsonpNoBinary(c *core.Ctx, R string) {
 // (whose constructor starts the reader goroutine) exists.
 func wsLimitOnConn(c *core.Ctx, R string) {
 	n := 0
-	for _, ua := range fieldAssignsAnywhere(c, "WebSocketConn.MaxPayload") {
+	writes := fieldAssignsAnywhere(c, "WebSocketConn.MaxPayload")
+	for _, u := range c.P.Units {
+		for _, a := range fieldInits(u, "WebSocketConn.MaxPayload") {
+			writes = append(writes, UnitAssign{u, a})
+		}
+	}
+	for _, ua := range writes {
 		n++
 		u := ua.U
 		c.Touch(u)
@@ -442,7 +448,9 @@ func wsLimitOnConn(c *core.Ctx, R string) {
 		fromOpt := strings.HasSuffix(key, ".MaxHttpBufferSize")
 		before := false
 		for _, cl := range u.Calls() {
-			if strings.HasSuffix(cl.Key, ".onWebSocket") && u.Graph().Dominates(ua.Loc, cl.Loc) {
+			// (a keyed literal among the call's own arguments is evaluated before the call)
+			if strings.HasSuffix(cl.Key, ".onWebSocket") && (u.Graph().Dominates(ua.Loc, cl.Loc) ||
+				(ua.Rhs != nil && cl.Expr.Lparen < ua.Rhs.Pos() && ua.Rhs.End() <= cl.Expr.Rparen)) {
 				before = true
 			}
 		}
